@@ -7,6 +7,36 @@ TB_COMMON = [
 ]
 
 PROPS = {
+    "C06": {
+        "coq": "theories/Properties/C06.v",
+        "sub": "c06",
+        "n": {"quick": 44000, "thorough": 400000},
+        "level": "proof",
+        "search_factor": 1,
+        "rule": "candidate universe = {Impossible, All, Single v (null + 12 boundary values), Multiple of 0-5 values (empty, singletons, all ordered pairs incl. duplicates over {null, I64 0, U64 0, U64 2^63, \"a\"}, all triples over {null, I64 1, U64 1}, seeded random), Range over every bound-kind combination 3x3 x null_included over 12 non-null boundary values (I64 -1/0/1/MAX, U64 0/1/i64::MAX/2^63, \"\"/\"a\"/\"b\", a float) = 1250 ranges}. Tie (model vs hooks): Range::new on all 27x27 bound combinations incl. null bounds (panic), Range::degenerate+contains on every range x 18 probes, Range::intersect on every start x start and end x end combination, normalize on the whole universe, exclude on (non-range x every probe) and (range x {null, bound values in both integer kinds, 2 seeded probes}), intersect on ALL ordered pairs of non-range candidates plus n seeded pairs involving a Range (half Range x non-Range in either order, half Range x Range). A case is non-trivial unless an intersect operand is Impossible/All, normalize is applied to Impossible/Single/All, or exclude to Impossible; distinct by rendered operation+operands. Direct oracle (implementation only, every run): ALL ~1.8M ordered pairs of the universe x 18 probe values for intersect, the whole universe for normalize, universe x 18 x 18 for exclude.",
+        "trusted_base": TB_COMMON + [
+            "Cand.v instantiates the generic candidate code with FieldValue's == / partial_cmp as transcribed in Values.v (tied by C08); comparisons between different non-integer variants order by discriminant",
+            "debug_assert! sites of Range::intersect are modelled as panics (the harness profile enables debug-assertions); proved unreachable on well-formed ranges",
+        ],
+        "assumptions": ["range bounds are not null (asserted by Range::new / with_start / with_end; Range also derives Deserialize, which is outside this property)", "floats are finite (FieldValue's documented invariant)"],
+        "level_text": "Exactness of intersect (mem (a ∩ b) x = mem a x && mem b x for every probe incl. null), of normalize, and the two inclusion statements for exclude_single_value are Coq theorems over ANY carrier whose partial_cmp is a total preorder comparator consistent with == and whose null test is == default(), for ALL candidates (any list length, any bounds) with non-null range bounds; discharged for FieldValue with the C08 order laws, and restated as closed theorems about the tied instance (f_intersect/f_normalize/f_exclude built from the transcribed fv_eq/fv_cmp) on well-formed values. The operations are proved panic-free (debug_assert!, unreachable!, expect) and to preserve well-formedness; Range::new panics exactly on a null bound. The tie re-runs the hooked functions of the current /repo build against the model on ~68k cases per run and the set-theoretic statements are checked directly on all ~1.8M candidate pairs of the universe x 18 probes.",
+        "level_note": "Trusted: Coq kernel; the transcription Cand.v (tied by the differential run only) over Values.v; the harness and renderers. Range::with_start/with_end have no hook (same assert block as Range::new; modelled, not tied).",
+    },
+    "C07": {
+        "coq": "theories/Properties/C07.v",
+        "sub": "c07",
+        "n": {"quick": 20, "thorough": 120},
+        "level": "proof",
+        "rule": "direct: all 11 operator functions reachable through op_direct on every ordered pair over the 57-element C08 boundary set plus 29 extra values (regex-pattern strings valid and invalid, lists of strings / mixed-sign ints / floats / nulls / nested, non-finite floats) plus n seeded random values; dispatch: all 20 operations x {static table, tagged table with Some} x active in {true,false} on every ordered pair of a 24-value set (+ n/4 random), plus unary path and tagged None on every value. A pair is non-trivial when it lies inside the documented domain of at least one operator other than `=` (orderable pair or null, string/null pair, list/null collection); distinct by rendered pair. The oracle recomputes every in-domain result from first principles (i128 comparison, byte-wise string ops, structural equality) and checks exact complement / table wiring / optional survival on the implementation.",
+        "trusted_base": TB_COMMON + [
+            "IEEE-754: native f64 comparison equals integer comparison of the sign-magnitude keys (f64_key), NaN compares false; checked densely by the tie",
+            "Rust str ordering / contains / starts_with / ends_with are byte-wise (String.compare, prefix on bytes)",
+            "the regex crate is abstracted as a function re_match : pattern -> haystack -> option bool (None = does not compile); regex theorems are relative to it; the tie instantiates it per case with a finite table computed by the real regex crate",
+        ],
+        "assumptions": ["floats are finite (FieldValue's documented invariant)", "regex behaviour is taken from the regex crate (abstract re_match)"],
+        "level_text": "Coq theorems over ALL operands (unbounded): equals = value equality eqT and never panics on well-formed values; <,<=,>,>= equal numeric comparison on Z for all 2^128 integer pairs of either signedness, byte-lexicographic order on strings, key order on finite floats, false when either side is null; exact characterisation of the operand pairs on which the slow-path unreachable! arms fire (cmp_defined), unreachable on orderable scalar pairs; prefix/suffix/substring = existential definitions; one_of/contains = membership up to eqT; negation_exact for every negated operation in both dispatch tables and the unary path; table wiring. Known genuine defect F5 (ordering operators panic on list operands the frontend accepts) is proved as a refutation witness and reported as KNOWN-FINDING. The tie re-runs every operator of the current /repo build against the model on ~11k pairs x 11 functions and ~600 pairs x 80 table entries per run.",
+        "level_note": "Trusted: Coq kernel; the transcription Ops.v/Values.v (tied by the differential run only); IEEE-754 finite comparison as key comparison; byte-wise str operations; the regex crate (abstracted); the harness and renderers.",
+    },
     "C08": {
         "coq": "theories/Properties/C08.v",
         "sub": "c08",
@@ -20,6 +50,20 @@ PROPS = {
         "assumptions": ["floats are finite (FieldValue's documented invariant)"],
         "level_text": "All eight order/equality laws are Coq theorems over ALL field values (any nesting, all 2^64 integers of either signedness, every finite float bit pattern), closed under the global context; the transcribed PartialEq/PartialOrd are proved panic-free and equal to the total functions on well-formed values. The tie re-runs == and partial_cmp of the current /repo build against the model on ~9k pairs per run, and the laws themselves are checked on ~900k implementation triples.",
         "level_note": "Trusted: Coq kernel; the transcription Values.v (tied by the differential run only); IEEE-754 finite comparison modelled as sign-magnitude key comparison; byte-wise str ordering; the harness and renderers.",
+    },
+    "C17": {
+        "coq": "theories/Properties/C17.v",
+        "sub": "c17",
+        "n": {"quick": 40, "thorough": 400},
+        "level": "proof",
+        "rule": "exhaustive family every run: all 90 types over base names Int/String/Foo x list depth <= 3 x every nullability pattern (2+4+8+16 shapes): construction through new_named_type/new_list_type, all accessors, with_nullability, one more list level; all 8 100 ordered pairs for intersect + is_scalar_only_subtype + equal_ignoring_nullability; every type x an 85-value set (the C08 boundary values, nested lists to depth 4, Enum-containing lists under catch_unwind) for is_valid_value; plus the two extreme 30-level types and n seeded random types of up to 30 levels with same-shape partners and type-directed values (new_list_type at 30 levels panics in both). A pair is non-trivial when base name and list depth agree (the operations are not decided by the shape check); a validity case when it is not a plain `false` or both type and value are lists; distinct by rendered input. The oracle checks every law on the implementation on all pairs/triples of the family (729 000 triples) and on a 40-type deep sample.",
+        "trusted_base": TB_COMMON + [
+            "types are identified with (base name, u64 mask) as reported by the __verif_mask hook; Arc<str> interning of the four builtin names is not modelled (it does not affect equality)",
+            "Rust str equality / u64 bit operations have their standard meaning (String.eqb on bytes; N.land/N.lor/N.shiftl/N.shiftr, with the single possibly-truncating shift written as trunc64)",
+        ],
+        "assumptions": ["types are well formed = built by new_named_type/new_list_type/parse (proved equivalent to the mask encoding <= 30 list levels)"],
+        "level_text": "All lattice laws are Coq theorems over ALL well-formed types (every list depth <= 30, every nullability pattern, every base name) and ALL field values, closed under the global context: intersect is commutative, idempotent, associative, a lower bound, the greatest lower bound, and None exactly when base or list depth differ; is_scalar_only_subtype is a partial order; equal_ignoring_nullability is an equivalence implied by subtyping; validity is monotone (all values) and validity for a meet is validity for both (enum-free values); intersect never panics, new_list_type panics exactly at 30 levels, is_valid_value panics exactly when its scan reaches an Enum (defect F6, accounted under C12). The mask-level transcription (with fuel 33) is proved equal to structural recursion on an abstract type view. The tie re-runs the real functions against the model on ~17k cases per run, exhaustively on the 90-type family.",
+        "level_note": "Trusted: Coq kernel; the transcription Ty.v (tied by the differential run only); the (name, mask) reading of Type through the __verif_mask hook; the harness and renderers.",
     },
 }
 
